@@ -293,4 +293,11 @@ ASSUMPTIONS = [
 ]
 NOT_COVERED = ["magnitude of the parameter change"]
 
-REPLAY = {"": "c05_frames"}
+REPLAY = {"": "c05_frames", "train_ensemble": "c17_pets"}
+
+# "An update with a non-zero gradient does change the trained component" for the PETS ensemble also needs
+# train_ensemble to hand at least one batch to train_epoch (whose frame and update are proved above): that is
+# C17's contract of train_ensemble (n_batches == floor(m / batch_size), >= 1 when the samples cover one batch).
+from .C17 import TASKS as _C17_TASKS  # noqa: E402
+
+TASKS = TASKS + [t for t in _C17_TASKS if t.name.startswith("train_ensemble")]
